@@ -6,7 +6,8 @@
   patching phase, `commit` applied to the tree holding exactly the old build succeeds and yields a tree that
   holds exactly the new build, whatever the two visiting orders are.  It is FALSE without `NoKindClash`
   (finding F8: a path whose kind changes between builds makes commit fail; four shapes are recorded as known
-  findings — the fourth has been repaired since, finding F27, see Props/C02Kinds.lean), so what is proved is
+  findings — the fourth has been repaired since, finding F27, and so have the first two, see
+  Props/C02Kinds.lean), so what is proved is
   `commit_correct_partial`, which adds that hypothesis.
 
   Status: all three stages (`commit_correct_notransp_nosym_partial`, `commit_correct_notransp_partial`,
@@ -324,13 +325,28 @@ example : ∃ t', commit laOld laNew laWork
     Holds t' laNew :=
   temp_name_lookalike_ok _ _ (by decide) (by decide)
 
-/-- F8 witness (machine-checked): a directory that becomes a file makes commit fail in the model as in the
-    code. -/
+/-- F8 shape (1): a NON-EMPTY directory of the old build where a new (staged) file goes.  This used to be the F8
+    witness (`os.Remove` of the directory failed, ENOTEMPTY); since the repair of F8 (1)/(2) `move` and the staged
+    moves clear such a destination with `os.RemoveAll`, and the commit SUCCEEDS (`commit_f8_1_repaired`; that it
+    yields exactly the new build is `f8_1_ok` in Props/C02Kinds.lean, and follows from
+    `commit_correct_kinds_partial`). -/
 def exF8Old : Build := { dirs := [["a"]], files := [(["a", "f"], [1])] }
 def exF8New : Build := { files := [(["a"], [2])] }
 
-theorem commit_correct_counterexample :
+theorem commit_f8_1_repaired :
     (match commit exF8Old exF8New { moveFiles := [0] } [] [] (treeOfBuild exF8Old) with
+     | .ok _ => true | .error _ => false) = true := by
+  decide +kernel
+
+/-- F8 witness (machine-checked), shape (3): a file that becomes a directory holding that very file renamed makes
+    commit fail in the model as in the code (the file is cleared by `ensureDirs` before the transposition reads
+    it). -/
+def exF8cOld : Build := { files := [(["f"], [1]), (["k"], [3])] }
+def exF8cNew : Build := { dirs := [["f"]], files := [(["f", "inner"], [1]), (["k"], [3])] }
+
+theorem commit_correct_counterexample :
+    (match commit exF8cOld exF8cNew { transpositions := [(0, 0), (1, 1)] } [["f"], ["k"]] [["f"], ["k"]]
+        (treeOfBuild exF8cOld) with
      | .ok _ => true | .error _ => false) = false := by
   decide
 
